@@ -10,7 +10,7 @@ from ..ctx import stable_hash
 
 ID = "C12"
 LEVEL = "exploration"
-TIERS = {"quick": {"shards": 16, "budget_s": 120, "runs": 100, "line_runs": 12, "stress_runs": 12, "systematic_pipelines": 2, "systematic_deviations": 1},
+TIERS = {"quick": {"shards": 16, "budget_s": 120, "runs": 100, "line_runs": 16, "stress_runs": 12, "systematic_pipelines": 2, "systematic_deviations": 1},
          "thorough": {"shards": 16, "budget_s": 900, "runs": 9000, "line_runs": 600, "stress_runs": 150, "systematic_pipelines": 6, "systematic_deviations": 2}}
 RULE = ("The real TokenizerWorker + observer workers (recording observers, PrintWorker with captured stdout, RegionSaverWorker, "
         "AudioEventsJoinerWorker; optionally a StreamSaverWorker as reader; with and without a logger; event-free streams; an "
@@ -143,8 +143,15 @@ def one(ctx, case, tmpdir, decisions=None):
     ctx.maxi("threads", len(s.states))
     if case.get("line_p"):
         ctx.count("line_mode_runs")
+        if case.get("line_gran") == "instr":
+            ctx.count("instruction_mode_runs")
+            ctx.maxi("instruction_sites_seen", res.info["lines_seen"])
+        elif case.get("line_scope") == "all":
+            ctx.count("all_module_line_mode_runs")
+            ctx.maxi("all_module_lines_seen", res.info["lines_seen"])
         ctx.count("line_preemptions", res.info["line_preemptions"])
-        ctx.maxi("workers_py_lines_seen", res.info["lines_seen"])
+        if case.get("line_gran") != "instr" and case.get("line_scope", "workers") == "workers":
+            ctx.maxi("workers_py_lines_seen", res.info["lines_seen"])
     if case["saver"] is not None:
         ctx.count("runs_with_stream_saver")
     ok = check_run(ctx, case, data, tmpdir, res, expected)
@@ -301,7 +308,7 @@ def run_shard(ctx):
                 break
         rng = ctx.rng("lines")
         for i in range(conf["line_runs"]):
-            case = P.random_pipeline_case(rng, max_windows=20, line_mode=True)
+            case = P.random_pipeline_case(rng, max_windows=20 if i % 4 == 0 else 10, line_mode=(True, "instr", "all", "instr")[i % 4])
             one(ctx, case, tmpdir)
             if ctx.out_of_time():
                 break
@@ -323,7 +330,7 @@ def replay(ctx, case):
 
 def inconclusive(merged, tier):
     c = merged["counters"]
-    need = ["scheduled_runs", "messages_checked", "timeouts_fired", "context_switches", "line_mode_runs", "line_preemptions",
+    need = ["scheduled_runs", "messages_checked", "timeouts_fired", "context_switches", "line_mode_runs", "instruction_mode_runs", "all_module_line_mode_runs", "line_preemptions",
             "stress_runs", "stress_messages_checked", "systematic_schedules", "systematic_pipelines_fully_enumerated", "observers_checked_rec", "observers_checked_print",
             "observers_checked_regionsaver", "observers_checked_joiner", "runs_with_stream_saver", "runs_with_long_bursts_of_detections", "runs_with_a_logger", "observers_that_died_mid_stream", "runs_with_a_failing_close", "runs_started_tokenizer_first", "runs_with_blocking_observer_waits", "runs_with_a_command_observer", "timeout_marathon_runs", "runs_with_more_than_10000_detections"] + ["strategy_" + s for s in P.S.NAMES]
     out = [f"monitor never observed {k}" for k in need if c.get(k, 0) == 0]
